@@ -9,12 +9,12 @@ CLAIM = {
  "C01": "Lean theorems over the model of the output sink: the generated table of compiler.write's arms (string/bool escaped and placed before Stringer, template.HTML verbatim, slices and return wrappers recurse), htmlEscape emits no raw < > ' \" for every byte string, and every nesting of blocks/loops/return wrappers around a Go string reaches the output only as escaped chunks. Partial: provenance through the whole evaluator (all plumbing routes) is tied by correspondence and the oracle, not by one theorem.",
  "C02": "Lean theorems over the model of compile/evalStatement: literal text is appended verbatim, an output tag appends what the sink writes, code tags / let / comments contribute nothing at top level and inside blocks; and an END-TO-END theorem composing the lexer, parser and evaluator models: every byte string without `<%` and without NUL renders to itself (C02_tagless_renders_to_itself) with no side effect on the evaluator state, parsed as exactly one literal statement. The text scanner with its two escapes and string literals are modelled byte for byte and tied by exhaustive enumeration of short texts; the scanner's totality is Theorem A (C03). Partial: the escape laws for texts that DO contain `\<%` are tied by the exhaustive lex-text stream, not by a theorem.",
  "C03": "Lean theorems over the model of lexer+parser: THEOREM A — for every byte string the scanner never slices out of range, every NextToken consumes a byte unless the scan is over, the token stream ends in one constant EOF token, and the parser model reads exactly that unbounded stream; THEOREM B — for every token array ending in EOF (hence every source text) the parser model returns a program and an error list: its recursion budget is never exhausted (outOfFuel, the stand-in for a hang / unbounded recursion, is unreachable) because every cycle of the 20 mutually recursive parse functions consumes a token. The model is tied to /repo by the regenerated tables (ParseFns, Keywords, CharClasses, Precedences) and by exhaustive/random differential runs of the real lexer and parser against the compiled model (kind projection: OK/ERR vs PANIC/HANG).",
- "C04": "Lean theorems: (1) for EVERY operator and pair of operand values, every (container × index) read and every (container × index × value) write, the model of the evaluator's dispatch yields a value or an error, never a crash site (case analysis over all value constructors by a compositional NoCrash calculus); (2) the parser side: for every source text, a program that parses without a syntax error contains no nil child that the evaluator would dereference (the only three crash sites left in the evaluator model) — a partial-correctness calculus over the 20 parse functions shows errors are only added and a bad node implies an added error. Partial: struct/method/func values and the built-in helpers' own panics are decided by the exhaustive oracle matrices (incl. value shapes inside kinds) only; that closures stored in contexts keep well-formed bodies is argued (they are sub-trees of error-free programs), not proved.",
+ "C04": "Lean theorems: (1) for EVERY operator and pair of operand values, every (container × index) read and every (container × index × value) write, the model of the evaluator's dispatch yields a value or an error, never a crash site (case analysis over all value constructors by a compositional NoCrash calculus); (2) EVALUATOR-WIDE: over all 27 functions of the evaluator\'s mutual recursion (every program, state and fuel) a crash site is reachable only at three named dereferences of a missing AST child — not in dispatch, indexing, calls, binding, loops, helpers, partials, the sink or (Theorem B) the parser; (3) the parser side: for every source text, a program that parses without a syntax error contains no nil child that the evaluator would dereference (the only three crash sites left in the evaluator model) — a partial-correctness calculus over the 20 parse functions shows errors are only added and a bad node implies an added error. Partial: struct/method/func values and the built-in helpers' own panics are decided by the exhaustive oracle matrices (incl. value shapes inside kinds) only; that closures stored in contexts keep well-formed bodies is argued (they are sub-trees of error-free programs), not proved.",
  "C05": "Lean theorems over the generated tolerance facts (tolerated operators and sites are exactly the licensed ones, guarded by the *ErrUnknownIdentifier assertion) and over the evaluator model: a non-tolerated operand/condition/element/statement error is the result of the enclosing construct and of compile, with the cause chain kept and the output dropped.",
  "C06": "Lean theorems over the TRANSLATED precedence table and operator tables (documented order, registration, each operator's meaning per operand type, division by zero, type mismatch, short-circuit) and THEOREM C — the Pratt round trip on the parser model: every expression tree over atoms, registered binary operators and prefix operators (! -), printed with the minimal parentheses that the precedence table and LEFT associativity require, is parsed back to exactly that tree (any depth, any operator mix), with grouping corollaries (equal levels nest left, tighter operators first, right-nested trees need parentheses). Partial: call / index inside the round trip and the evaluator-wide equality with the reference evaluator are tied by exhaustive correspondence and the oracle; bool-left coercion is a known finding.",
  "C07": "Lean theorems: isTruthy (generated from compiler.go) equals the property's falsy list on every value; !, if, else-if use it with the unknown-identifier-as-nil rule; for chains of ANY length the block of the first truthy condition is the result and later conditions do not occur in it (induction over the else-if list).",
  "C08": "Lean theorems over the loop models: per-element step for normal / continue / break results (break stops, continue keeps the partial output and goes on, elements in list order), block folding of control objects, the counter iterator's running count, and — for every input — the parser's loop flag is SCOPED: every parse function returns with the inForBlock flag it was called with (all 20 functions, automated walk), so break/continue are accepted exactly inside loops, however nested. Partial: the unrolling equivalence over whole programs is decided by the oracle.",
- "C09": "Lean theorems: every scoping construct runs its body under withCtx on a fresh child context and the caller's context is current again afterwards (on success and on error); writes go to the current frame only; with C10_isolation a write in a child is invisible to ancestors and siblings.",
+ "C09": "Lean theorems: EVALUATOR-WIDE — every one of the 27 evaluator functions returns (value or error) with the current context it was started with, for every program, data and fuel (one automated walk; withCtx and renderIn are the only places that switch and they switch back); every scoping construct runs its body under withCtx on a fresh child context and the caller's context is current again afterwards (on success and on error); writes go to the current frame only; with C10_isolation a write in a child is invisible to ancestors and siblings.",
  "C10": "Lean refinement theorem: for EVERY history of NewContextWith / New / Set, Value and Has of the concrete store (association lists, parent indexes, helper injection) equal those of an abstract scope-chain spec in which a scope is a partial function; corollaries: value-after-set, nearest binding wins, Has ⇔ non-nil, isolation of ancestors and siblings.",
  "C11": "PARTIAL. Lean theorems about the logic part: dotted-path split/join, assignCallee wiring (the indexed element is the root of the member chain, also for a[i].b.f()), two-sided bounds check, missing key = nil, member of nil = nil. Field/method navigation over reflected Go values is outside the model and is decided by the self-describing-data oracle.",
  "C12": "Lean theorems stating the binder's decision logic outright: too many arguments / too few for a variadic ⇒ error with nothing evaluated; arguments are evaluated left to right and binding stops at the first failure; unassignable ⇒ error, not invoked; assignable ⇒ passed unchanged in position; nil ⇒ zero value (fixed and variadic); the variadic tail takes all remaining arguments; helper errors keep their cause chain.",
